@@ -96,12 +96,23 @@ def run(tier, seed):
     # folded into a fresh state and rendered in every mode and overlay; total means no panic for any of them
     from . import c03
     tmpv = Verdict("C03", "aux", seed)
-    _, _, corpus, _, _ = c03.judge_scenarios(tmpv, c03.scenarios(), wd, False, tag="corpus")
+    cres, _, _, _, _ = c03.judge_scenarios(tmpv, c03.scenarios(), wd, False, tag="corpus")
+    # one representative per SHAPE of each type (which optional parts are present / null / empty), the richest first
+    corpus = {}
+    shapes = {}
+    for res in cres:
+        for sid_, st in res["streams"].items():
+            for fr in st["log_raw"]:
+                shape = (fr["type"],) + tuple(sorted((k, x is None, x in ([], {}, "")) for k, x in fr.items()))
+                if shape not in shapes:
+                    shapes[shape] = fr
+    for shape, fr in shapes.items():
+        corpus.setdefault(fr["type"], []).append(fr)
     fcases, nfr = [], 0
     for kind, frames in sorted(corpus.items()):
         batch = []
-        rich = sorted(frames, key=lambda x: -len(json.dumps(x)))[:(4 if thorough else 1)]      # the frame with most of its optional parts present
-        for fi, fr in enumerate(frames[:1] + [x for x in rich if x is not frames[0]]):
+        rich = sorted(frames, key=lambda x: -len(json.dumps(x)))[:(10 if thorough else 4)]      # frames with most of their optional parts present first
+        for fi, fr in enumerate(rich):
             batch += [fr] + [m for _, m in c03.mutants(fr)]
         nfr += len(batch)
         for k in range(0, len(batch), 40):
